@@ -127,6 +127,32 @@ def gen_dense_string(rng, size=None):
     return "".join(chars)
 
 
+# values as they occur in real simfiles (a change keyed on "what StepMania would do" with a
+# particular kind of value needs such values to show)
+REALISTIC = {
+    "DISPLAYBPM": ["150", "60:240", "150:150", "150.000:150.000", "128:128.0", "*", "0:0", "1:1", "90:180:180"],
+    "ATTACKS": ["TIME=1.000:LEN=0.500:MODS=drunk", "TIME=1.000:END=2.000:MODS=*2 dizzy", ":TIME=1", "::"],
+    "BPMS": ["0.000=120.000", "0.000=120.000,16.000=240.000", "0=60"],
+    "STOPS": ["", "4.000=0.500", "4=1,8=1"],
+    "OFFSET": ["0.000000", "-0.060", "0"],
+    "SELECTABLE": ["YES", "NO", "ROULETTE"],
+    "BANNER": ["banner.png", "..\\shared\\banner.png", "gfx/bn.png"],
+    "BACKGROUND": ["bg.png", "..\\shared\\bg.png"],
+    "MUSIC": ["song.ogg", "audio\\song.mp3"],
+    "VERSION": ["0.83", "0.81"],
+}
+DIFFICULTIES = ["Beginner", "Easy", "Medium", "Hard", "Challenge", "Edit", "basic", "light", "another",
+                "trick", "standard", "difficult", "ssr", "maniac", "heavy", "smaniac", "expert", "oni",
+                "HEAVY", "Oni", "beginner", "challenge"]
+STEPSTYPES = ["dance-single", "dance-double", "dance-solo", "pump-single", "dance-couple", "lights-cabinet"]
+
+
+def gen_value_for_key(rng, key, profile, none_rate=0.06):
+    if key in REALISTIC and rng.random() < 0.35:
+        return rng.choice(REALISTIC[key])
+    return gen_value(rng, profile, none_rate)
+
+
 def gen_value(rng, profile, none_rate=0.06):
     if rng.random() < none_rate:
         return None
@@ -180,6 +206,10 @@ def gen_sm_chart_spec(rng, profile):
     if rng.random() < 0.2:
         return {"from": "blank"}
     spec = {"from": "fields", "fields": [gen_field(rng, profile) for _ in range(6)]}
+    if rng.random() < 0.35:
+        spec["fields"][0] = rng.choice(STEPSTYPES)
+        spec["fields"][2] = rng.choice(DIFFICULTIES)
+        spec["fields"][3] = rng.choice(["1", "9", "12", "0"])
     if rng.random() < 0.012:
         # long note data whose escapable pairs straddle block boundaries (written after a
         # line break, hence the shift of one)
@@ -254,7 +284,7 @@ def gen_edit_op(rng, fmt, profile, nchart_hint, domain="roundtrip", weights=None
             k = "TITLE"
         op = {"op": kind, "key": k}
         if kind in ("set_key", "dict_setdefault"):
-            op["value"] = gen_value(rng, profile)
+            op["value"] = gen_value_for_key(rng, k, profile)
         if kind == "move":
             op["last"] = rng.random() < 0.5
         return op
@@ -264,7 +294,7 @@ def gen_edit_op(rng, fmt, profile, nchart_hint, domain="roundtrip", weights=None
             a = rng.choice(["stops", "bgchanges", "attacks", "displaybpm"])
         op = {"op": kind, "attr": a}
         if kind == "set_attr":
-            op["value"] = gen_value(rng, profile)
+            op["value"] = gen_value_for_key(rng, a.upper(), profile)
         return op
     if kind == "iter":
         return {"op": "iter"}
@@ -297,7 +327,10 @@ def gen_chart_op(rng, fmt, profile, nchart_hint, domain="roundtrip"):
     i = rng.randint(0, max(0, nchart_hint - 1))
     if fmt == "sm":
         kind = wchoice(rng, [("set_key", 3), ("set_attr", 3), ("set_extra", 1.5), ("get_key", 0.4),
-                             ("get_attr", 0.4), ("iter", 0.2), ("contains", 0.2)])
+                             ("get_attr", 0.4), ("iter", 0.2), ("contains", 0.2), ("extra_inplace", 1.2)])
+        if kind == "extra_inplace":
+            return {"op": "extra_inplace", "i": i, "how": rng.choice(["append", "setitem", "del", "insert"]),
+                    "value": gen_string(rng, profile), "pos": rng.randint(0, 2)}
         if kind in ("set_key", "get_key", "contains"):
             op = {"op": kind, "i": i, "key": rng.choice(SM_FIELDS)}
             if kind == "set_key":
@@ -307,6 +340,8 @@ def gen_chart_op(rng, fmt, profile, nchart_hint, domain="roundtrip"):
             op = {"op": kind, "i": i, "attr": rng.choice(SM_FIELDS).lower()}
             if kind == "set_attr":
                 op["value"] = gen_field(rng, profile)
+                if op["attr"] == "difficulty" and rng.random() < 0.5:
+                    op["value"] = rng.choice(DIFFICULTIES)
             return op
         if kind == "set_extra":
             ex = None if rng.random() < 0.3 else \
@@ -387,6 +422,11 @@ def gen_simfile_text(rng, fmt, profile, nparams=None, ncharts=None, messy=0.0):
         if rng.random() < messy:
             k = k.lower() if rng.random() < 0.5 else k.capitalize()
         v = gen_string(rng, profile)
+        if k in REALISTIC and rng.random() < 0.3:
+            v = rng.choice(REALISTIC[k])
+            if k in MULTI:
+                lines.append("#%s:%s;" % (esc(k), v))       # components as written in real files
+                continue
         if rng.random() < messy * 0.5:
             lines.append("#%s;" % esc(k))
         else:
@@ -403,8 +443,12 @@ def gen_simfile_text(rng, fmt, profile, nparams=None, ncharts=None, messy=0.0):
             continue
         if fmt == "sm":
             f = [gen_string(rng, profile).strip() for _ in range(6)]
+            extra = ""
+            if rng.random() < 0.25:
+                # more than six components: the surplus ones are kept as extra components
+                extra = "".join(":" + esc(gen_string(rng, profile)) for _ in range(rng.randint(1, 3)))
             lines.append("#NOTES:" + ":".join("\n     " + esc(x) for x in f[:5])
-                         + ":\n" + esc(f[5]) + "\n;")
+                         + ":\n" + esc(f[5]) + "\n" + extra + ";")
         else:
             lines.append("#NOTEDATA:;")
             for _ in range(rng.randint(0, 3)):
